@@ -13,6 +13,9 @@ import vlib, idlgen
 
 
 def canary(row, rng):
+    if row.get("kind") == "lit" and row.get("ok"):
+        row["lit"] = row["lit"] + [97]
+        return row
     if row.get("kind") != "script" or not row.get("ok") or len(row["nodes"]) < 2:
         return None
     i = rng.randrange(1, len(row["nodes"]))
@@ -39,6 +42,87 @@ def bytes_case(data, cid):
             "emptybc": idlgen.has_emptybc(data)}
 
 
+def unesc(t):
+    return t.replace('\\"', '"').replace("\\\\", "\\")
+
+
+def parse_cases(out):
+    res = []
+    for line in out.splitlines():
+        if line.startswith('<<"CASE", "') and line.endswith('">>'):
+            res.append(json.loads(unesc(line[len('<<"CASE", "'):-3])))
+    return res
+
+
+def lexer_model(ctx):
+    """Roles A and B for positions / docstrings: MCLexer over skeletons x layouts, with negative controls."""
+    count, maxtoks = (10, 14) if ctx.quick() else (18, 18)
+    seeds, covered = idlgen.pick_skeletons(count, maxtoks, seed0=ctx.seed * 100000)
+    params = []
+    for sd in seeds:
+        r = random.Random(sd)
+        params.append((sd, r.choice([0, 0, 1]), r.choice([1, 1, 2])))
+    skels = [idlgen.export_skeleton(idlgen.skeleton(sd, nheaders=nh, ndefs=nd)) for sd, nh, nd in params]
+
+    def stage(name):
+        d = ctx.dir(name)
+        vlib.write_ndjson(os.path.join(d, "skeletons.ndjson"), skels)
+        vlib.write_ndjson(os.path.join(d, "gaps.ndjson"), idlgen.export_gaps())
+        return d
+    cfg = open(os.path.join(vlib.SPECS, "MCLexer.cfg")).read()
+    mod = 40 if ctx.quick() else 200
+    main = cfg.replace("EmitMod = 1", "EmitMod = %d" % mod).replace("EmitPick = 0", "EmitPick = %d" % (ctx.seed % mod))
+    main = main.replace("DocsOK", "DocsOK EmitCase")
+    if not ctx.quick():
+        main = main.replace("MaxFancy = 2", "MaxFancy = 3")
+    r = vlib.model_check(ctx, "MCLexer", main, workdir=stage("mclexer"), timeout=3000)
+    for flag, inv in (("FixTokNl", "PositionsOK"), ("FixDocNl", "DocsOK"), ("FixDocLeak", "DocsOK")):
+        neg = vlib.tlc(ctx, "MCLexer", cfg.replace("%s = TRUE" % flag, "%s = FALSE" % flag), workdir=stage("neg_" + flag),
+                       timeout=900, allow_error=True)
+        if "Invariant %s is violated" % inv not in neg["out"]:
+            raise vlib.Inconclusive("negative control failed: %s = FALSE does not violate %s" % (flag, inv))
+    neg = vlib.tlc(ctx, "MCLexer", cfg.replace("PositionsOK", "PositionsAllOK"), workdir=stage("neg_all"), timeout=900, allow_error=True)
+    if "Invariant PositionsAllOK is violated" not in neg["out"]:
+        raise vlib.Inconclusive("negative control failed: positions read before the token do not violate PositionsAllOK")
+    ctx.notes.append("negative controls: the scanner as pinned (each of the three repairs switched off) violates PositionsOK / DocsOK; "
+                     "the property without the recorded finding (PositionsAllOK) is violated by values that follow '=' / ':' / extends")
+    cases = []
+    for k, c in enumerate(parse_cases(r["out"])):
+        sd, nh, nd = params[c["sk"] - 1]
+        cases.append(idlgen.to_case(idlgen.skeleton(sd, gaps=c["gaps"], nheaders=nh, ndefs=nd), "L%d" % k))
+    if not cases:
+        raise vlib.Inconclusive("MCLexer printed no cases")
+    ctx.cov["skeletons"] = len(skels)
+    ctx.cov["skeleton_features"] = len(covered)
+    ctx.cov["layout_cases_from_model"] = len(cases)
+    return cases
+
+
+def quote_model(ctx):
+    """Roles A and B for literals: MCQuote over every body up to a length, both styles; negative control = pinned quote.go."""
+    cfg = open(os.path.join(vlib.SPECS, "MCQuote.cfg")).read()
+    mod = 40 if ctx.quick() else 150
+    main = cfg.replace("EmitMod = 1", "EmitMod = %d" % mod).replace("EmitPick = 0", "EmitPick = %d" % (ctx.seed % mod))
+    main = main.replace("INVARIANTS UnquoteIsDenotation", "INVARIANTS UnquoteIsDenotation EmitCase")
+    if not ctx.quick():
+        main = main.replace("MaxLen = 4", "MaxLen = 5")
+    r = vlib.model_check(ctx, "MCQuote", main, timeout=3000)
+    neg = vlib.tlc(ctx, "MCQuote", cfg.replace("UsePinned = FALSE", "UsePinned = TRUE"), timeout=900, allow_error=True)
+    if "Invariant UnquoteIsDenotation is violated" not in neg["out"]:
+        raise vlib.Inconclusive("negative control failed: the pinned unquoting does not violate UnquoteIsDenotation")
+    ctx.notes.append("negative control: quote.go as pinned (ReplaceAll + quote swapping) violates UnquoteIsDenotation")
+    cases = []
+    for k, c in enumerate(parse_cases(r["out"])):
+        q = chr(c["q"])
+        text = "const string x = " + q + bytes(c["body"]).decode("latin-1") + q
+        cases.append({"id": "q%d" % k, "kind": "lit", "q": c["q"], "body": c["body"], "text": text,
+                      "linelens": idlgen.linelens(text.encode()), "emptybc": False})
+    if not cases:
+        raise vlib.Inconclusive("MCQuote printed no cases")
+    ctx.cov["literal_cases_from_model"] = len(cases)
+    return cases
+
+
 def run(ctx):
     rng = random.Random(ctx.seed)
     drv = vlib.build_harness(ctx)
@@ -47,6 +131,8 @@ def run(ctx):
         rep = json.load(open(ctx.replay))
         cases = [rep["case"]]
     else:
+        cases += lexer_model(ctx)
+        cases += quote_model(ctx)
         nrand = 400 if ctx.quick() else 6000
         for i in range(nrand):
             cases.append(idlgen.random_case(ctx.seed * 1000003 + i, "r%d" % i, density=rng.choice([0.2, 0.5, 0.8]),
